@@ -587,6 +587,10 @@ func (m *Machine) invoke(t *Thread, fn Value, args []Value, ins ssa.Instruction,
 			m.goPanic(t, "runtime error: invalid memory address or nil pointer dereference (method call on nil interface)", ins)
 			return
 		}
+		if cl.Native == "makefunc" {
+			m.callMakeFunc(t, cl, args, ins, onRet, advance, deferOwner)
+			return
+		}
 		m.callNative(t, cl.Native, args, ins, onRet, advance, deferOwner)
 		return
 	}
